@@ -47,7 +47,7 @@ def source(mm, style='metaclass'):
                 nm = f"name='{f.name}', " if key != f.name else ''
                 if f.ref:
                     out.append(f'    {key} = EReference({nm}ordered={b(f.ordered)}, unique={b(f.unique)}, containment={b(f.cont)}, '
-                               f'upper={-1 if f.many else 1})')
+                               f'upper={-1 if f.many else 1}, transient={b(getattr(f, "transient", False))})')
                 else:
                     d = f', default_value={dflt[f.fid]!r}' if f.fid in dflt else ''
                     out.append(f'    {key} = EAttribute({nm}eType={f.typ[1]}, ordered={b(f.ordered)}, unique={b(f.unique)}, '
